@@ -94,3 +94,214 @@ Example c05_cfg_ok : cfg_ok w4_cfg.
 Proof. exact (proj1 (proj2 (proj2 cfg_ok_examples))). Qed.
 Example c05_inv : TaskInv w4_cfg w4_db.
 Proof. exact w4_inv_example. Qed.
+
+(* ===================================================================
+   BRIDGE configuration -> task layer -> row builder (Model/BridgeDeps.v,
+   Proofs/BridgeDepsP.v; design.d/C05.md "Bridge dependencies").
+
+   Above, [t_deps] is a FIELD of the task configuration.  In the Go code it
+   is Integration.Dependencies, derived by config.ValidateFilterRefs inside
+   ValidateFix; that function is modelled in Model/Config.v (C15/C16:
+   [validate_filter_refs], [validate_fix], field [ig_deps]).  The statements
+   below say what that list is, restate the bounds above with the premise on
+   [t_deps] replaced by "the configuration validated", and show that every
+   table the row builder can read through [dbs] is the table of an integration
+   in that list.  Seeded edit C05-f (one scratch slice shared by all
+   integrations: b waits for c instead of a) violates the first statement.
+   =================================================================== *)
+From Shovel Require Import Model.Config Model.BridgeDeps Proofs.BridgeDepsP.
+From Shovel Require Model.Filter Model.Rows Model.Sql.
+
+(* After a successful ValidateFix: position by position, the validated
+   integration keeps its name, its Dependencies are what the file supplied
+   under "dependencies" (normally nothing) followed by ITS OWN declared
+   references -- the names in the filter_refs of its top-level event inputs,
+   then of its block fields, in order, duplicates kept -- and nothing of any
+   other integration.  Every declared reference is among the Dependencies and
+   names a configured integration [k]; [t] is that integration's table (the
+   last of that name, as the Go map has it). *)
+Theorem dependencies_are_declared_refs : forall U G c c',
+  validate_fix U G c = Some c' ->
+  Forall2 deps_rel (integs c) (integs c')
+  /\ (user_deps_empty c -> forall g', In g' (integs c') -> ig_deps g' = declared_refs g')
+  /\ (forall g' R, In g' (integs c') -> In R (declared_refs g') ->
+        In R (ig_deps g')
+        /\ exists k t, In k (integs c') /\ ig_name k = R
+                       /\ ref_table_of (integs c') R = Some t /\ t_name (ig_table k) = t).
+Proof. exact dependencies_are_declared_refs_l. Qed.
+Print Assumptions dependencies_are_declared_refs.
+
+(* the same for ValidateFilterRefs alone *)
+Theorem validate_filter_refs_dependencies : forall igs0 igs1,
+  validate_filter_refs igs0 = Some igs1 ->
+  Forall2 deps_rel igs0 igs1
+  /\ forall g' R, In g' igs1 -> In R (declared_refs g') -> exists k, In k igs1 /\ ig_name k = R.
+Proof. exact validate_filter_refs_deps_l. Qed.
+Print Assumptions validate_filter_refs_dependencies.
+
+(* [dep_target_bounded] for the task [c] of a validated integration [g]
+   (t_ig c = enc (name of g), t_deps c = map enc (Dependencies of g), [enc]
+   any injective naming): the premises [cfg_ok c] and [t_deps c <> []] are
+   replaced by: the configuration validated, the file supplied no
+   "dependencies", g does not reference itself (NOT refused by the code:
+   [self_reference_accepted]), g declares a reference.  Conclusion: the list
+   the task waits on IS the list of g's declared references, and every
+   declared reference R is a configured integration whose committed cursor was
+   at or beyond every block of the committed batch. *)
+Theorem validated_dependent_never_ahead : forall U G cf cf' enc g c,
+  validate_fix U G cf = Some cf' -> user_deps_empty cf -> injective enc ->
+  In g (integs cf') -> no_self_ref g -> sizes_ok c -> task_of_integ enc g c ->
+  declared_refs g <> [] ->
+  forall d s, TaskInv c d -> Forall unforced s -> trace_sat reply_ok (step c s d) ->
+  r_out (step c s d) = Fin OConverged ->
+  t_deps c = map enc (declared_refs g)
+  /\ exists p q bs dn dh,
+    pv c d = render c (p ++ q) /\ pv c (r_db (step c s d)) = render c (p ++ [bs]) /\ bs <> []
+    /\ dep_query (t_src c) (map enc (declared_refs g)) (d_curs d) = Some (dn, dh, ndeps c)
+    /\ (forall x, In x bs -> b_num x <= dn)
+    /\ (forall R, In R (declared_refs g) ->
+          (exists k, In k (integs cf') /\ ig_name k = R)
+          /\ exists n h, newest (t_src c) (enc R) (d_curs d) = Some (n, h) /\ dn <= n).
+Proof. exact validated_dependent_never_ahead_l. Qed.
+Print Assumptions validated_dependent_never_ahead.
+
+(* [system_dep_bounded] for the interleaved system whose task configurations
+   are tasks of integrations of the validated configuration
+   ([tasks_of_config]: sizes as cfg_ok asks, no self reference).  Every task
+   about to write a position is the task of a validated integration g, waits
+   on exactly g's declared references, and -- when g declares any -- its most
+   recent dependency reading bounds the position and was covered by the
+   committed cursor of EVERY declared reference. *)
+Theorem validated_system_never_ahead : forall U G cf cf' enc cfgs d sch,
+  validate_fix U G cf = Some cf' -> user_deps_empty cf -> injective enc ->
+  tasks_of_config enc cf' cfgs ->
+  Forall (fun m => unforced (snd m)) sch -> sched_ok sch (sys_init cfgs d) ->
+  forall st t cur a b n k,
+  In st (sys_states sch (sys_init cfgs d)) -> In t (s_tasks st) ->
+  ts_prog t = Some (Op (InsCursor cur a b n) k) ->
+  exists g, In g (integs cf') /\ task_of_integ enc g (ts_cfg t)
+    /\ t_deps (ts_cfg t) = map enc (declared_refs g)
+    /\ (declared_refs g <> [] ->
+        exists dn dh d_r,
+          In (QLatestDep (t_src (ts_cfg t)) (map enc (declared_refs g)),
+              RDep (Some (dn, dh, ndeps (ts_cfg t))), d_r) (ts_hist t)
+          /\ In d_r (map s_db (sys_states sch (sys_init cfgs d)))
+          /\ c_num cur <= dn
+          /\ forall R, In R (declared_refs g) ->
+               (exists k0, In k0 (integs cf') /\ ig_name k0 = R)
+               /\ exists n' h', newest (t_src (ts_cfg t)) (enc R) (d_curs d_r) = Some (n', h') /\ dn <= n').
+Proof. exact validated_system_never_ahead_l. Qed.
+Print Assumptions validated_system_never_ahead.
+
+(* The row builder.  [d] is a Rows-level declaration carrying the filters of
+   the validated integration g (top-level inputs without components, block
+   fields: [same_filters]).  (a) every (table, column) at which Rows.insert can
+   read [dbs] for d ([consulted d]) is the table of a declared reference R of
+   g, R is in g's Dependencies, the column is declared for that table; (b)
+   Rows.insert depends on [dbs] only through the tables of g's Dependencies:
+   two contents that agree there give the same rows.  With
+   [validated_dependent_never_ahead] the position bound covers every lookup. *)
+Theorem lookups_only_in_dependencies : forall U G c c' g d,
+  validate_fix U G c = Some c' -> In g (integs c') -> same_filters g d ->
+  (forall t col, In (t, col) (consulted d) ->
+     exists R, In R (declared_refs g) /\ In R (ig_deps g)
+               /\ ref_table_of (integs c') R = Some t /\ mem col (cols_of_table (integs c') t) = true)
+  /\ (forall vr ctx dbs1 dbs2 blocks,
+        (forall R t col, In R (ig_deps g) -> ref_table_of (integs c') R = Some t ->
+                         Filter.db_lookup dbs1 t col = Filter.db_lookup dbs2 t col) ->
+        Rows.insert vr d ctx dbs1 blocks = Rows.insert vr d ctx dbs2 blocks).
+Proof. exact lookups_only_in_dependencies_l. Qed.
+Print Assumptions lookups_only_in_dependencies.
+
+(* The same at the level of the SQL the task issues (Model/Sql.v [accepts_of],
+   compared with the statements the implementation sends on every C15 run):
+   the reference queries are exactly [cfg_lookups g], and for an integration
+   without components each goes to the table of a declared reference. *)
+Theorem reference_queries_only_in_dependencies : forall U G c c' g,
+  validate_fix U G c = Some c' -> In g (integs c') ->
+  Sql.accepts_of g
+  = map (lookup_stmt Sql.P_irt Sql.P_irc) (input_lookups (selected (ig_inputs g)))
+    ++ map (lookup_stmt Sql.P_brt Sql.P_brc) (block_lookups (ig_block g))
+  /\ (flat g = true ->
+      forall t col, In (t, col) (cfg_lookups g) ->
+        exists R, In R (declared_refs g) /\ In R (ig_deps g)
+                  /\ ref_table_of (integs c') R = Some t /\ mem col (cols_of_table (integs c') t) = true).
+Proof.
+  exact (fun U G c c' g H Hin =>
+           conj (accepts_of_are_cfg_lookups_l g) (cfg_lookups_only_in_dependencies_l U G c c' g H Hin)).
+Qed.
+Print Assumptions reference_queries_only_in_dependencies.
+
+(* OBSERVATIONS ABOUT THE CODE (each replayed on /repo, design.d/C05.md):
+   an integration that references its own table validates and depends on
+   itself (the task layer's cfg_ok excludes it; such a task never starts) *)
+Theorem self_reference_accepted :
+  option_map (fun c' => map (fun g => (ig_name g, ig_deps g)) (integs c')) (validate_fix U_ascii ex_G ex_self_root)
+  = Some [(nm_s, [nm_s])].
+Proof. exact self_reference_accepted_l. Qed.
+Print Assumptions self_reference_accepted.
+
+(* a "dependencies" key in the configuration file is kept: without
+   [user_deps_empty] Dependencies is not the list of declared references *)
+Theorem user_supplied_dependencies_kept_refuted :
+  option_map (fun c' => map ig_deps (integs c')) (validate_fix U_ascii ex_G ex_userdeps_root)
+  = Some [[]; [nm_ghost; nm_a]]
+  /\ map declared_refs (integs ex_userdeps_root) = [[]; [nm_a]].
+Proof. exact user_supplied_dependencies_kept_l. Qed.
+Print Assumptions user_supplied_dependencies_kept_refuted.
+
+(* a filter_ref on a COMPONENT of a tuple input (table written by the user) is
+   never seen by ValidateFilterRefs: validation succeeds, Dependencies is
+   empty, the reference query on a's table is issued -- without [flat] the
+   lookups are NOT covered by the dependencies *)
+Theorem nested_reference_escapes_refuted :
+  match validate_fix U_ascii ex_G ex_nested_root with
+  | Some c' =>
+      map (fun g => (ig_deps g, declared_refs g, declared_refs_deep g, cfg_lookups g)) (integs c')
+      = [([], [], [], []); ([], [], [nm_a], [(nm_ta, nm_addr)])]
+  | None => False
+  end.
+Proof. exact nested_ref_escapes_l. Qed.
+Print Assumptions nested_reference_escapes_refuted.
+
+(* Non-vacuity.  Four integrations a, b (input filter_ref -> a), c, d
+   (block-field filter_ref -> c): Dependencies of b = [a], of d = [c], after
+   ValidateFix and after ValidateFilterRefs alone; what seeded edit C05-f
+   computes (b waits for c) is not that. *)
+Example bridge_deps_example :
+  option_map (fun c' => map ig_deps (integs c')) (validate_fix U_ascii ex_G ex_root)
+  = Some [[]; [nm_a]; []; [nm_c]]
+  /\ option_map (map ig_deps) (validate_filter_refs (integs ex_root)) = Some [[]; [nm_a]; []; [nm_c]]
+  /\ map declared_refs (integs ex_root) = [[]; [nm_a]; []; [nm_c]]
+  /\ ex_aliased_deps <> map declared_refs (integs ex_root).
+Proof. exact ex_dependencies_l. Qed.
+(* the error cases of ValidateFilterRefs: unknown integration, table without
+   integration, missing column, undeclared column; integration + table: the
+   table is overwritten *)
+Example bridge_deps_refused :
+  validate_filter_refs (integs (ex_root_with ex_r_unknown)) = None
+  /\ validate_filter_refs (integs (ex_root_with ex_r_usertable)) = None
+  /\ validate_filter_refs (integs (ex_root_with ex_r_nocol)) = None
+  /\ validate_filter_refs (integs (ex_root_with ex_r_badcol)) = None
+  /\ option_map (map (fun g => (ig_deps g, map (fun i => r_table (f_ref (i_flt i))) (ig_inputs g))))
+                (validate_filter_refs (integs (ex_root_with ex_r_overwritten)))
+     = Some [([], [[]]); ([nm_a], [nm_ta])].
+Proof. exact ex_refused_l. Qed.
+(* the premises of the task-layer statements hold for the task of b *)
+Example bridge_deps_task_premises :
+  injective ex_enc
+  /\ In (ex_validated 1) (match validate_fix U_ascii ex_G ex_root with Some c' => integs c' | None => [] end)
+  /\ user_deps_empty ex_root /\ no_self_ref (ex_validated 1) /\ sizes_ok ex_task_b
+  /\ task_of_integ ex_enc (ex_validated 1) ex_task_b /\ declared_refs (ex_validated 1) <> []
+  /\ cfg_ok ex_task_b.
+Proof. exact ex_task_premises_l. Qed.
+(* the lookup is real: b's declaration reads exactly (ta, addr); with the
+   address in a's table the row is emitted, with the table empty it is not,
+   without the table the insert fails *)
+Example bridge_deps_lookup_real :
+  same_filters (ex_validated 1) ex_decl_b
+  /\ consulted ex_decl_b = [(nm_ta, nm_addr)]
+  /\ (exists row, Rows.insert Rows.fixed ex_decl_b ex_ctx (ex_dbs [ex_addr5]) [ex_blk] = Outcome.Ok [row])
+  /\ Rows.insert Rows.fixed ex_decl_b ex_ctx (ex_dbs []) [ex_blk] = Outcome.Ok []
+  /\ Rows.insert Rows.fixed ex_decl_b ex_ctx [] [ex_blk] = Outcome.Err.
+Proof. exact ex_lookup_real_l. Qed.
